@@ -2,7 +2,7 @@
 
 proof:          Props/C17.v over Model/DbCache.v (cache + retry loop as a state machine; API v1 round trip)
 correspondence: (a) operation sequences at the interface of the real _ReBenchDB persistence (persist_data_point,
-                send_data at scripted times, close) with the real ReBenchDB connector whose _send_payload is
+                send_data at scripted times, close) with the real ReBenchDB connector whose urlopen is
                 scripted per request (Ack / connection refused / HTTP 5xx / HTTP 4xx) - exhaustive over
                 answer patterns per transmission; cache, acknowledged requests and request count vs the model;
                 (b) whole sessions in-process (real Configurator, Executor, composite persistence, data loaded
@@ -55,7 +55,8 @@ class Wire:
         self.k += 1
         if a == "Ack":
             self.acked.append(json.loads(payload.decode("utf-8")))
-            return b"ok"
+            # the text of the acknowledgement is the server's business: ASCII, UTF-8 or another encoding
+            return [b"ok", b"", "gespeichert \u00e4\u00fc".encode("latin-1") + b"\xff", "\u4fdd\u5b58".encode("utf-8")][len(self.acked) % 4]
         if a == "Refuse":
             raise URLError(ConnectionRefusedError(111, "Connection refused"))
         code = 503 if a == "S5xx" else 400
@@ -70,9 +71,33 @@ class Clock:
         return self.now
 
 
+class Response:
+    """what urlopen returns, as far as the connector uses it"""
+
+    def __init__(self, body, headers=None):
+        self.body, self.headers = body, headers or {}
+
+    def __enter__(self):
+        return self
+
+    def __exit__(self, *a):
+        return False
+
+    def read(self):
+        return self.body
+
+    def getheader(self, k):
+        return self.headers.get(k)
+
+
 def install(wire, clock):
-    old = (ReBenchDB._send_payload, rdbmod.sleep, pers.time, renv._source)
-    ReBenchDB._send_payload = staticmethod(wire)
+    old = (rdbmod.urlopen, rdbmod.sleep, pers.time, renv._source)
+
+    def fake_urlopen(req, *a, **kw):
+        if req.get_method() != "PUT":
+            return Response(b"", {})
+        return Response(wire(req.data, req.full_url))
+    rdbmod.urlopen = fake_urlopen
     rdbmod.sleep = lambda s: None
     pers.time = clock
     renv._source = dict(SOURCE)
@@ -80,7 +105,7 @@ def install(wire, clock):
 
 
 def restore(old):
-    ReBenchDB._send_payload, rdbmod.sleep, pers.time, renv._source = old
+    rdbmod.urlopen, rdbmod.sleep, pers.time, renv._source = old
 
 
 def make_runs(n):
@@ -156,7 +181,10 @@ def run_ops(runs, answers, evs, v2, t0=1000):
         db = _ReBenchDB(Cfg(), None, ui)
         db.set_start_time("2026-01-01T00:00:00")
         per_run_inv = {}
+        failure = None
         for e in evs:
+            if failure is not None:
+                break
             if e[0] == "add":
                 r, serial = e[1], e[2]
                 # iterations 1.. within one invocation per run (keeps the v2 layout well-formed)
@@ -165,9 +193,22 @@ def run_ops(runs, answers, evs, v2, t0=1000):
                 db.persist_data_point(mk_dp(runs[r], 1, k, [("total", serial)]))
             elif e[0] == "send":
                 clock.now = float(e[1])
-                db.send_data()
+                try:
+                    db.send_data()
+                except Exception as exc:  # noqa - what the session would see: it ends, and its data files are closed
+                    failure = "%s: %s" % (type(exc).__name__, exc)
+                    try:
+                        db.close()
+                    except Exception:  # noqa
+                        pass
             else:
-                db.close()
+                try:
+                    db.close()
+                except Exception as exc:  # noqa
+                    failure = "%s: %s" % (type(exc).__name__, exc)
+        if failure is not None:
+            acked = [[(int(n[1:]), s_) for n, s_ in payload_serials(p_, v2)] for p_ in wire.acked]
+            return dict(cache=[], acked=acked, requests=wire.k, payloads=wire.acked, exception=failure)
         cache = [(int(r.benchmark.name[1:]), [int(dp.get_total_value()) for dp in dps]) for r, dps in db._cache.items()]
         acked = [[(int(n[1:]), s) for n, s in payload_serials(p, v2)] for p in wire.acked]
         return dict(cache=cache, acked=acked, requests=wire.k, payloads=wire.acked)
@@ -176,6 +217,11 @@ def run_ops(runs, answers, evs, v2, t0=1000):
 
 
 def oracle_ops(chk, case, evs, answers, obs, final_close):
+    if obs.get("exception"):
+        sent_ = [s for req in obs["acked"] for _, ss in req for s in ss]
+        chk.violation("C17 no answer of the server ends a transmission in an exception (and nothing is acknowledged twice because of it)", case,
+                      "no exception", dict(exception=obs["exception"], acknowledged=sent_))
+        return
     added = [e[2] for e in evs if e[0] == "add"]
     sent = [s for req in obs["acked"] for _, ss in req for s in ss]
     cached = [s for _, ss in obs["cache"] for s in ss]
@@ -548,7 +594,7 @@ def run(chk):
                             "patterns up to length 4 / 6, with data from 1-4 runs between the attempts; random operation "
                             "sequences; whole sessions with reloaded and measured data; data point sets with sparse criteria")
     chk.coverage["exhaustive"] = True
-    chk.assumptions += ["urlopen is scripted at ReBenchDB._send_payload (URLError / HTTPError / response); sleep and the 30 s clock "
+    chk.assumptions += ["urlopen as imported by rebenchdb.py is scripted (URLError / HTTPError / a response whose body is ASCII, empty, Latin-1 or UTF-8); sleep and the 30 s clock "
                         "are replaced by the launcher", "API v2: the receiver's reading of a request (decode_v2) is a specification written from "
                         "ReBenchDB's format description, not code of this repository"]
     return chk.finish()
